@@ -82,6 +82,10 @@ func c16Fixed() []c16Case {
 	return []c16Case{
 		{"top-level-two", map[string]string{"p.vuego": `<i v-once>M1</i><b v-once>M2</b><i>M3</i>`}, "p.vuego", map[string]int{"M1": 1, "M2": 1, "M3": 1}},
 		// marked elements INSIDE a marked element: each of them is an element of its own - emitted once, with the wrapper's first instance
+		// a marked element that merely FOLLOWS a loop (it is no v-else): emitted once whether the loop produced something or nothing
+		{"once-after-empty-loop", map[string]string{"p.vuego": `<ul><li v-for="t in none">x</li></ul><div><span v-for="t in none">y</span><style v-once>M1</style></div><p v-once>M2</p>`}, "p.vuego", map[string]int{"M1": 1, "M2": 1}},
+		{"once-after-filled-loop", map[string]string{"p.vuego": `<div><span v-for="t in items">y</span><style v-once>M1</style></div><p v-once>M2</p>`}, "p.vuego", map[string]int{"M1": 1, "M2": 1}},
+		{"once-after-empty-loop-in-component", map[string]string{"p.vuego": `<template include="card.vuego"></template><template include="card.vuego"></template>`, "card.vuego": `<div><span v-for="t in none">y</span><style v-once>M1</style><i>M2</i></div>`}, "p.vuego", map[string]int{"M1": 1, "M2": 2}},
 		{"nested-once-two-inside", map[string]string{"p.vuego": `<div v-once><style v-once>M1</style><script v-once>M2</script><i>M3</i></div>`}, "p.vuego", map[string]int{"M1": 1, "M2": 1, "M3": 1}},
 		{"nested-once-in-loop", map[string]string{"p.vuego": `<section v-for="x in items"><div v-once><b v-once>M1</b><u v-once>M2</u></div><i v-once>M3</i><s>M4</s></section>`}, "p.vuego", map[string]int{"M1": 1, "M2": 1, "M3": 1, "M4": 3}},
 		{"nested-once-template-wrapper", map[string]string{"p.vuego": `<template v-once><b v-once>M1</b><u v-once>M2</u></template><p><i v-once>M3</i></p>`}, "p.vuego", map[string]int{"M1": 1, "M2": 1, "M3": 1}},
